@@ -5,6 +5,7 @@ import Driver.IndexEng
 import Driver.TokEng
 import Driver.MemEng
 import Driver.HistEng
+import Driver.OpsEng
 /-! `rlbox_model_driver`: one operation per line on stdin, one result per line on stdout. -/
 open Driver
 
@@ -17,7 +18,7 @@ def firstSome (fs : List (List String → Option String)) (t : List String) : Op
 
 def stepLine (s : St) (line : String) : St × String :=
   let t := toks line
-  match firstSome [Conv.step, PtrEng.step, RangeEng.step, IndexEng.step, MemEng.step] t with
+  match firstSome [Conv.step, PtrEng.step, RangeEng.step, IndexEng.step, MemEng.step, OpsEng.step] t with
   | some r => (s, r)
   | none =>
   match TokEng.step s.tok t with
